@@ -259,11 +259,12 @@ func (u *universe) ty(e *sexp) types.Type {
 			bad("bad sl")
 		}
 		return types.NewSlice(u.ty(a[0]))
-	case "ch":
+	case "ch", "chr", "chs":
 		if len(a) != 1 {
 			bad("bad ch")
 		}
-		return types.NewChan(types.SendRecv, u.ty(a[0]))
+		dir := map[string]types.ChanDir{"ch": types.SendRecv, "chr": types.RecvOnly, "chs": types.SendOnly}[e.list[0].atom]
+		return types.NewChan(dir, u.ty(a[0]))
 	case "ar":
 		if len(a) != 2 || a[0].isL {
 			bad("bad ar")
@@ -318,7 +319,7 @@ func (u *universe) show(t types.Type) string {
 	case *types.Slice:
 		return "(sl," + u.show(t.Elem()) + ")"
 	case *types.Chan:
-		return "(ch," + u.show(t.Elem()) + ")"
+		return "(" + map[types.ChanDir]string{types.SendRecv: "ch", types.RecvOnly: "chr", types.SendOnly: "chs"}[t.Dir()] + "," + u.show(t.Elem()) + ")"
 	case *types.Array:
 		return fmt.Sprintf("(ar,%d,%s)", t.Len(), u.show(t.Elem()))
 	case *types.Map:
